@@ -117,6 +117,10 @@ Lemma refuted_item_suppressed_header :
   unanswered [I_Sec false S_Header None; I_Sec false (S_Fields [S_ "TO"]) None] item_suppressed.
 Proof. vm_compute. auto. Qed.
 
+Lemma refuted_item_suppressed_twice :
+  unanswered [I_Sec true S_Header None; I_Sec true S_Header (Some (3, 5))] item_suppressed.
+Proof. vm_compute. auto. Qed.
+
 Lemma refuted_rfc822_renamed : unanswered [I_Simple (S_ "RFC822")] rfc822_renamed.
 Proof. vm_compute. auto. Qed.
 
